@@ -23,18 +23,57 @@ BASELINE = os.path.join(VERIF, "baseline")
 
 
 class _Shape(ast.NodeTransformer):
+    """blank the identifiers of locals only: names of functions, modules and globals are part of the shape"""
+
+    def __init__(self, local_names):
+        self.loc = local_names
+
     def visit_Name(self, n):
-        return ast.copy_location(ast.Name(id="_", ctx=n.ctx), n)
+        if n.id in self.loc:
+            return ast.copy_location(ast.Name(id="_", ctx=n.ctx), n)
+        return n
 
     def visit_arg(self, n):
         return ast.copy_location(ast.arg(arg="_", annotation=None), n)
 
 
-def _shape(node):
+def _shape(node, local_names):
     try:
-        return ast.dump(_Shape().visit(copy.deepcopy(node)), annotate_fields=False)
+        return ast.dump(_Shape(local_names).visit(copy.deepcopy(node)), annotate_fields=False)
     except Exception:
         return ast.dump(node, annotate_fields=False)
+
+
+def _names_local(node, local_names):
+    """identifiers of locals in a deterministic traversal order (the positions _shape blanks)"""
+    out = []
+    for x in ast.walk(node):
+        if isinstance(x, ast.Name) and x.id in local_names:
+            out.append(x.id)
+        elif isinstance(x, ast.arg):
+            out.append(x.arg)
+    return out
+
+
+def _interfere(fn, a, b):
+    """are the locals a and b of fn ever live at the same time (so that giving them one name would change the meaning)?"""
+    try:
+        from .cfg import CFG
+        cfg = CFG(fn)
+        view = cfg.view()
+        live_in, live_out = view.liveness()
+        for n in view.nodes():
+            d, u = cfg.defs_uses(n)
+            lo = live_out.get(n.id, set())
+            if a in lo and b in lo:
+                return True
+            if (a in d and b in lo) or (b in d and a in lo):
+                # defining one while the other is still needed afterwards
+                if not (a in d and b in d):
+                    return True
+        return False
+    except Exception:
+        return True
 
 
 def _flat_stmts(fn):
@@ -102,13 +141,14 @@ def _locals_of(fn):
 def mapping(cur_fn, base_fn):
     """{current local name -> baseline local name} learnt from statements of identical shape"""
     cs, bs = _flat_stmts(cur_fn), _flat_stmts(base_fn)
-    csh = [_shape(n) for _, n in cs]
-    bsh = [_shape(n) for _, n in bs]
+    cl0, bl0 = _locals_of(cur_fn), _locals_of(base_fn)
+    csh = [_shape(n, cl0) for _, n in cs]
+    bsh = [_shape(n, bl0) for _, n in bs]
     sm = difflib.SequenceMatcher(a=csh, b=bsh, autojunk=False)
     votes = {}
     for blk in sm.get_matching_blocks():
         for k in range(blk.size):
-            cn, bn = _names_in_order(cs[blk.a + k][1]), _names_in_order(bs[blk.b + k][1])
+            cn, bn = _names_local(cs[blk.a + k][1], cl0), _names_local(bs[blk.b + k][1], bl0)
             if len(cn) != len(bn):
                 continue
             for x, y in zip(cn, bn):
@@ -137,9 +177,16 @@ def mapping(cur_fn, base_fn):
     for x, y in m.items():
         inv.setdefault(y, []).append(x)
     for y, xs in inv.items():
-        # several current names for one baseline name are fine (the baseline re-used one temporary where the current code has
-        # two); mapping onto a name that is still in use unrenamed in the current function would capture it
-        if y in cl and y not in m and not votes.get(y, {}).get(y, 0):
+        # several current names for one baseline name are fine when the baseline re-used one temporary where the current code has
+        # two -- but only if the names being merged are never live at the same time; mapping onto a name that stays in use
+        # unrenamed in the current function is allowed on the same condition (otherwise the rename would capture it)
+        group = list(xs) + ([y] if (y in cl and y not in m) else [])
+        bad = False
+        for i_ in range(len(group)):
+            for j_ in range(i_ + 1, len(group)):
+                if _interfere(cur_fn, group[i_], group[j_]):
+                    bad = True
+        if bad or (y in cl and y not in m and not votes.get(y, {}).get(y, 0)):
             for x in xs:
                 m.pop(x, None)
     return m
